@@ -80,7 +80,27 @@ def rule_member_forward(ctx):
                   "the filters passed to the members do not combine the composite's own filters with those handed down to it: "
                   "filters attached to a composite do not apply to every member", file=rel, line=call.lineno, function=fi.qualname,
                   expected="_composite_filters derived from self.filters and _composite_filters", found=found)
-    run.floor(R, 6)
+        # the combined set is a fresh FilterSet: adding the handed-down filters into self.filters (an alias) would
+        # attach a parent's filters to this composite for good
+        if isinstance(cf, ast.Name):
+            from ..cfg import ReachingDefs, cfg_of
+            g = cfg_of(fi)
+            rd = ReachingDefs(g, fi.all_param_names())
+            st = call
+            while not isinstance(st, ast.stmt):
+                st = st.parent
+            defs = rd.reaching(g.node_of(st), cf.id)
+            notfresh = [short(dn.ast) if dn.ast is not None else "parameter" for dn, v in defs
+                        if not (isinstance(v, ast.Call) and call_simple_name(v) == "FilterSet")]
+            selfmut = [x for x in body_walk(fi.node) if isinstance(x, ast.Call) and isinstance(x.func, ast.Attribute)
+                       and norm(x.func.value) == "self.filters" and x.func.attr in ("add", "remove", "update", "clear")]
+            run.check(not notfresh and not selfmut, R, key(rel, fi.qualname, "combined-filters-are-private"),
+                      "the filter set handed to the members is not a fresh FilterSet: filters passed down by a parent composite "
+                      "(or by this call) are added into the composite's own attached filters and stay there, so later direct "
+                      "queries silently lose objects", file=rel, line=call.lineno, function=fi.qualname,
+                      expected="%s = FilterSet(); %s.add(self.filters); %s.add(_composite_filters)" % (cf.id, cf.id, cf.id),
+                      found=notfresh + [short(x) for x in selfmut])
+    run.floor(R, 9)
 
 
 def rule_dedup(ctx):
